@@ -461,19 +461,86 @@ with its hash-type byte), a key any byte string no longer than `_pub_key_size` a
 same number of elements, each no longer than estimated. -/
 
 open Btc.Script Btc.Spend in
-/-- p2pkh (either key compression, as long as `_pub_key_size` knows the key's size) -/
+/-- p2pkh, either key compression.  `_pub_key_size` is the translated source; that it answers at least the key's
+    length is DERIVED from the compression: a compressed key always, an uncompressed one when the psbt names it in
+    hd_key_paths (as an updater does) — unless another named key has the same hash160, and then that collision is
+    exhibited. -/
 theorem estimate_covers_p2pkh (vk : Bytes → Bool) (tp : Bytes → Ty × Bytes) (H : Bytes → Bytes) (sizer : Option (List Nat))
     (h pk sig : Bytes) (hd : List Bytes) (sht : Option Nat) (hl : h.length = 20)
     (htp : tp (p2pkh h) = (.p2pkh, h)) (hs : sig.length ≤ SIG)
-    (hk : pk.length ≤ pubKeySize H ⟨some (p2pkh h), [], [], hd, sht, false, [], []⟩ h) :
-    ∃ est fin, estimatedInputSizes tp H sizer ⟨some (p2pkh h), [], [], hd, sht, false, [], []⟩ = .ok est ∧
-      finalizedInput vk ⟨some (p2pkh h), [], [], [(pk, sig)]⟩ = .ok fin ∧ coversIn (sizesOf fin) est := by
-  have hest : estimatedInputSizes tp H sizer ⟨some (p2pkh h), [], [], hd, sht, false, [], []⟩ =
-      .ok ((serializePushes ([SIG, pubKeySize H ⟨some (p2pkh h), [], [], hd, sht, false, [], []⟩ h].map zeros ++ [])).length, []) := by
-    simp [estimatedInputSizes, htp, solutionSizes, Except.map]
-  refine ⟨_, _, hest, Btc.C18.Fin.finalize_p2pkh vk h pk sig hl, ?_, trivial⟩
-  have := pushes_cover [sig, pk] [SIG, pubKeySize H ⟨some (p2pkh h), [], [], hd, sht, false, [], []⟩ h] [] ⟨hs, hk, trivial⟩
-  simpa [sizesOf, serializePushes] using this
+    (hh : H pk = h) (hc : pk.length = 33 ∨ pk ∈ hd) :
+    (∃ est fin, estimatedInputSizes tp H sizer ⟨some (p2pkh h), [], [], hd, sht, false, [], []⟩ = .ok est ∧
+      finalizedInput vk ⟨some (p2pkh h), [], [], [(pk, sig)]⟩ = .ok fin ∧ coversIn (sizesOf fin) est) ∨
+    ∃ k' ∈ hd, k' ≠ pk ∧ H k' = H pk := by
+  rcases pub_key_size_covers H ⟨some (p2pkh h), [], [], hd, sht, false, [], []⟩ pk hc with hk | hcol
+  · left
+    rw [hh] at hk
+    have hest : estimatedInputSizes tp H sizer ⟨some (p2pkh h), [], [], hd, sht, false, [], []⟩ =
+        .ok ((serializePushes ([SIG, pubKeySize H ⟨some (p2pkh h), [], [], hd, sht, false, [], []⟩ h].map zeros ++ [])).length, []) := by
+      simp [estimatedInputSizes, htp, solutionSizes, Except.map]
+    refine ⟨_, _, hest, Btc.C18.Fin.finalize_p2pkh vk h pk sig hl, ?_, trivial⟩
+    have := pushes_cover [sig, pk] [SIG, pubKeySize H ⟨some (p2pkh h), [], [], hd, sht, false, [], []⟩ h] [] ⟨hs, hk, trivial⟩
+    simpa [sizesOf, serializePushes] using this
+  · exact Or.inr hcol
+
+open Btc.Script Btc.Spend in
+/-- pkh() inside sh(), either key compression: script_sig `sig pk redeem` -/
+theorem estimate_covers_sh_pkh (vk : Bytes → Bool) (tp : Bytes → Ty × Bytes) (H : Bytes → Bytes) (sizer : Option (List Nat))
+    (h hr pk sig : Bytes) (hd : List Bytes) (sht : Option Nat) (hl : h.length = 20) (hrl : hr.length = 20)
+    (htp : tp (p2sh hr) = (.p2sh, hr)) (htp2 : tp (p2pkh h) = (.p2pkh, h)) (hs : sig.length ≤ SIG)
+    (hh : H pk = h) (hc : pk.length = 33 ∨ pk ∈ hd) :
+    (∃ est fin, estimatedInputSizes tp H sizer ⟨some (p2sh hr), p2pkh h, [], hd, sht, false, [], []⟩ = .ok est ∧
+      finalizedInput vk ⟨some (p2sh hr), p2pkh h, [], [(pk, sig)]⟩ = .ok fin ∧ coversIn (sizesOf fin) est) ∨
+    ∃ k' ∈ hd, k' ≠ pk ∧ H k' = H pk := by
+  rcases pub_key_size_covers H ⟨some (p2sh hr), p2pkh h, [], hd, sht, false, [], []⟩ pk hc with hk | hcol
+  · left
+    rw [hh] at hk
+    have hne : (p2pkh h).isEmpty = false := by simp [p2pkh, Gen.Spend.P2PKH_PREFIX]
+    have hest : estimatedInputSizes tp H sizer ⟨some (p2sh hr), p2pkh h, [], hd, sht, false, [], []⟩ =
+        .ok ((serializePushes ([SIG, pubKeySize H ⟨some (p2sh hr), p2pkh h, [], hd, sht, false, [], []⟩ h].map zeros ++
+          [p2pkh h])).length, []) := by
+      simp [estimatedInputSizes, htp, htp2, hne, solutionSizes, Except.map]
+    refine ⟨_, _, hest, Btc.C18.Fin.finalize_sh_pkh vk h hr pk sig hl hrl, ?_, trivial⟩
+    have := pushes_cover [sig, pk] [SIG, pubKeySize H ⟨some (p2sh hr), p2pkh h, [], hd, sht, false, [], []⟩ h] [p2pkh h]
+      ⟨hs, hk, trivial⟩
+    simpa [sizesOf] using this
+  · exact Or.inr hcol
+
+open Btc.Script Btc.Spend in
+/-- pkh() inside wsh(), native or behind p2sh (`redeem` empty = native), EITHER key compression (consensus allows
+    an uncompressed key in a v0 witness script; btclib signs and finalizes it): witness `[sig, pk, witness_script]` -/
+theorem estimate_covers_wsh_pkh (vk : Bytes → Bool) (tp : Bytes → Ty × Bytes) (H : Bytes → Bytes) (sizer : Option (List Nat))
+    (spk redeem h pl0 pl1 pk sig : Bytes) (hd : List Bytes) (sht : Option Nat) (hl : h.length = 20)
+    (htp : if redeem.isEmpty then tp spk = (.p2wsh, pl0) else tp spk = (.p2sh, pl0) ∧ tp redeem = (.p2wsh, pl1))
+    (htw : tp (p2pkh h) = (.p2pkh, h)) (hs : sig.length ≤ SIG)
+    (hh : H pk = h) (hc : pk.length = 33 ∨ pk ∈ hd) :
+    (∃ est fin, estimatedInputSizes tp H sizer ⟨some spk, redeem, p2pkh h, hd, sht, false, [], []⟩ = .ok est ∧
+      finalizedInput vk ⟨some spk, redeem, p2pkh h, [(pk, sig)]⟩ = .ok fin ∧ coversIn (sizesOf fin) est) ∨
+    ∃ k' ∈ hd, k' ≠ pk ∧ H k' = H pk := by
+  rcases pub_key_size_covers H ⟨some spk, redeem, p2pkh h, hd, sht, false, [], []⟩ pk hc with hk | hcol
+  · left
+    rw [hh] at hk
+    have hws : (p2pkh h).isEmpty = false := by simp [p2pkh, Gen.Spend.P2PKH_PREFIX]
+    have hfin := Btc.C18.Fin.finalize_wsh_pkh vk spk redeem h pk sig hl
+    by_cases hr : redeem.isEmpty = true
+    · simp only [hr, if_true] at htp hfin
+      have hest : estimatedInputSizes tp H sizer ⟨some spk, redeem, p2pkh h, hd, sht, false, [], []⟩ =
+          .ok ((serializePushes []).length,
+            [SIG, pubKeySize H ⟨some spk, redeem, p2pkh h, hd, sht, false, [], []⟩ h] ++ [(p2pkh h).length]) := by
+        simp [estimatedInputSizes, htp, hr, p2wshWitnessSizes, hws, htw, solutionSizes, Except.map]
+      exact ⟨_, _, hest, hfin, by simp [sizesOf], hs, hk, Nat.le_refl _, trivial⟩
+    · have hr' : redeem.isEmpty = false := by simpa using hr
+      simp only [hr', Bool.false_eq_true, if_false] at htp hfin
+      have hest : estimatedInputSizes tp H sizer ⟨some spk, redeem, p2pkh h, hd, sht, false, [], []⟩ =
+          .ok ((serializePushes [redeem]).length,
+            [SIG, pubKeySize H ⟨some spk, redeem, p2pkh h, hd, sht, false, [], []⟩ h] ++ [(p2pkh h).length]) := by
+        simp [estimatedInputSizes, htp.1, htp.2, hr', p2wshWitnessSizes, hws, htw, solutionSizes, Except.map]
+      exact ⟨_, _, hest, hfin, by simp [sizesOf], hs, hk, Nat.le_refl _, trivial⟩
+  · exact Or.inr hcol
+
+-- non-vacuity: an uncompressed key the psbt names gets 65 from the translated `_pub_key_size`; unnamed, 33
+example : pubKeySize (fun k => k.take 2) ⟨none, [], [], [List.replicate 65 4], none, false, [], []⟩ [4, 4] = 65 := by decide
+example : pubKeySize (fun k => k.take 2) ⟨none, [], [], [], none, false, [], []⟩ [4, 4] = 33 := by decide
 
 open Btc.Script Btc.Spend in
 /-- p2pk -/
